@@ -6,20 +6,22 @@ use meshless_voronoi::geometry::Sphere;
 use meshless_voronoi::verif_hooks as vh;
 
 fn box_shape(rng: &mut Rng) -> (DVec3, DVec3, &'static str) {
-    match rng.below(5) {
+    match rng.below(7) {
         0 => (DVec3::ZERO, DVec3::ONE, "cube"),
         1 => (DVec3::splat(1.), DVec3::splat(2.), "cube12"),
         2 => (DVec3::new(-0.5, 2., 0.25), DVec3::new(1., 6., 1.), "slab"),
         3 => (DVec3::new(0., 0., 0.), DVec3::new(1.0 + 4. * rng.f64(), 0.5 + 3. * rng.f64(), 0.3 + 5. * rng.f64()), "randbox"),
+        5 => (DVec3::new(0., 0., 0.), DVec3::new(1., 0.5, 2.), "tall"),
+        6 => (DVec3::new(1., 1., 1.), DVec3::new(2., 3., 0.6), "thinz"),
         _ => (DVec3::new(3., -7., 11.), DVec3::new(8., 1., 2.5), "flat"),
     }
 }
 
 pub fn run_knn(out: &mut Out, rng: &mut Rng, thorough: bool) {
-    let reps = if thorough { 400 } else { 60 };
+    let reps = if thorough { 1500 } else { 260 };
     for rep in 0..reps {
         let (anchor, width, bname) = box_shape(rng);
-        let n = 2 + rng.below(if rep % 5 == 0 { 60 } else { 14 }) as usize;
+        let n = 2 + rng.below(if rep % 13 == 0 { 60 } else { 14 }) as usize;
         // grid cell size: from "one cell" to "many empty cells"
         let mcw = width.max_element() * [1.5, 0.7, 0.4, 0.25, 0.13][rng.below(5) as usize];
         let fam_pts = ["uniform", "cluster", "lattice", "line"][rng.below(4) as usize];
